@@ -59,7 +59,8 @@ pub open spec fn keypair_eqv(a: PartialKeypair, b: PartialKeypair) -> bool {
     a.public.bytes() == b.public.bytes() && (a.secret is Some) == (b.secret is Some)
         && (a.secret is Some ==> a.secret->Some_0.sk_bytes() == b.secret->Some_0.sk_bytes())
 }
-pub uninterp spec fn enc_manifest(d: Manifest) -> Seq<u8>;
+// version 0, hash id 0 (blake2b), type 1, signature id 0 (ed25519), 32-byte namespace, 32-byte public key
+pub open spec fn enc_manifest(d: Manifest) -> Seq<u8> { seq![0u8, 0u8, 1u8, 0u8] + d.signer.namespace@ + d.signer.public_key@ }
 pub open spec fn manifest_eqv(a: Manifest, b: Manifest) -> bool { a.hash@ == b.hash@ && a.signer.signature@ == b.signer.signature@ && a.signer.namespace@ == b.signer.namespace@ && a.signer.public_key@ == b.signer.public_key@ }
 pub open spec fn header_fields(d: Header) -> Seq<u8> {
     Manifest::dec_enc(d.manifest) + PartialKeypair::dec_enc(d.key_pair) + <Vec<String>>::dec_enc(d.user_data) + HeaderTree::dec_enc(d.tree) + HeaderHints::dec_enc(d.hints)
